@@ -20,3 +20,45 @@ package segreader
 //@   pure
 //@   safe
 //@ end
+
+// C18: a block whose load failed (checksum mismatch, truncated chunk, bad
+// encoding, failed decompression) must never count as the loaded block: the
+// identity of the loaded block (isBlockLoaded, currBlockNum) changes only when
+// a load succeeded, and then it names exactly the block that was loaded.
+//@ func (*SegmentFileReader).readBlock
+//@   props C18
+//@   requires sfr != nil
+//@   ensures [failed-load-is-not-loaded] implies(!result0 || result1 != nil, sfr.isBlockLoaded == old(sfr.isBlockLoaded) && sfr.currBlockNum == old(sfr.currBlockNum))
+//@   ensures [loaded-names-the-block] implies(result0 && result1 == nil, sfr.isBlockLoaded && sfr.currBlockNum == blockNum)
+//@ end
+
+// frame of the loader: buffers, decode cursors and dictionary tables only.
+//@ func (*SegmentFileReader).loadBlockUsingBuffer
+//@   props C18
+//@   modifies sfr.currRawBlockBuffer, sfr.currFileBuffer, sfr.encType, sfr.deTlv, sfr.deRecToTlv, sfr.currOffset, sfr.currRecLen, sfr.currRecordNum, sfr.currUncompressedBlockLen, contents(sfr.deTlv), contents(sfr.deRecToTlv), allbytes
+//@ end
+
+// buffer pools (third-party bytespool behind package-level variables): frame
+// only, ASSUMED — the pools hand out / take back byte buffers and touch no
+// reader state.
+//@ func GetBufFromPool
+//@   assumed
+//@   pure
+//@ end
+//@ func PutBufToPool
+//@   assumed
+//@   pure
+//@ end
+
+//@ func (*SegmentFileReader).unpackRawCsg
+//@   props C18
+//@   modifies sfr.currRawBlockBuffer, sfr.currOffset, sfr.currRecLen, sfr.currRecordNum, sfr.currUncompressedBlockLen, allbytes
+//@   note only the frame is claimed; that a decompressed block starts with a whole record header is an UNCHECKED site assumption (the chunk passed its CRC, so these are the bytes the writer produced)
+//@   site call sfr.getCurrentRecordLength #1:
+//@     assume len(sfr.currRawBlockBuffer) > 3
+//@ end
+
+//@ func (*SegmentFileReader).ReadDictEnc
+//@   props C18
+//@   modifies sfr.deTlv, sfr.deRecToTlv, contents(sfr.deTlv), contents(sfr.deRecToTlv), allbytes
+//@ end
